@@ -202,8 +202,9 @@ fn kernels_on(rng: &mut Rng, t: &mut Shards, dt: &DataType, max_len: usize) {
         let null_pct = *rng.pick(&[0usize, 0, 20, 60]);
         let b = mk::array(rng, dt, n, Cfg::wild(null_pct));
         let Ok(r) = guarded(|| tok::rows(b.as_ref())) else { return };
-        let rs = mutate::realisations(rng, &b, 3);
-        let pick = rng.below(rs.len());
+        let rs = mutate::realisations(rng, &b, 4);
+        // realisations with non-zero offsets (index 1.. : pad_slice, list_child_offset) are preferred
+        let pick = if rs.len() > 1 && rng.chance(70) { 1 + rng.below(rs.len() - 1) } else { rng.below(rs.len()) };
         let chosen = rs[pick].1.clone();
         if guarded(|| tok::rows(chosen.as_ref())).ok().as_ref() != Some(&r) {
             t.emit(json!({"op":"realise","type":ty,"fam":fam,"zw":zw,"nulltoks":nulltoks,"via":rs[pick].0,"rows":tok::strs(&r),"err":false,
@@ -393,7 +394,7 @@ pub fn run(args: &Args) {
     let types = mk::all_types();
     // selection kernels
     let mut t = Shards::create(&args.out, "select", shards);
-    let rounds = args.scale(2, 30);
+    let rounds = args.scale(3, 30);
     for _ in 0..rounds {
         for dt in &types {
             kernels_on(&mut rng, &mut t, dt, if args.thorough() { 130 } else { 70 });
